@@ -1,13 +1,13 @@
 SPECIFICATION Spec
 CONSTANTS
-  N = 3
+  N = 4
   MaxSteps = 2
-  K = 0
+  K = 1
   M = 0
-  Roots = 3
-  NatSteps = 3
-  Kinds = {"pa", "qo", "qd", "qa"}
-  NatKinds = {"sd", "qd"}
+  Roots = 4
+  NatSteps = 4
+  Kinds = {"pa", "rd", "ra", "aw"}
+  NatKinds = {"sd"}
   Prune = TRUE
 INVARIANTS TypeOK CoroMode RunToSuspension QueueFIFO ObservedOrder ResumeOncePerReadying NoReentrancy RoundRobin FullDrain AllDoneAtEnd
 PROPERTY FIFOStep
